@@ -179,6 +179,11 @@ impl<A: All2All> Votor<A> {
     }
 
     async fn handle_pool_event(&mut self, event: PoolEvent) {
+        #[cfg(feature = "verif-hooks")]
+        crate::verif::record(crate::verif::VerifEvent::VotorPool {
+            node: self.validator_index,
+            event: event.clone(),
+        });
         let slot = event.slot();
         if self.should_ignore_pool_event(&event) {
             trace!("ignoring pool event for old or retired slot {slot}");
@@ -260,6 +265,11 @@ impl<A: All2All> Votor<A> {
     }
 
     async fn handle_blockstore_event(&mut self, event: BlockstoreEvent) {
+        #[cfg(feature = "verif-hooks")]
+        crate::verif::record(crate::verif::VerifEvent::VotorBlockstore {
+            node: self.validator_index,
+            event: event.clone(),
+        });
         let slot = event.slot();
         if slot <= self.highest_final_cert_slot || self.is_retired(slot) {
             trace!("ignoring blockstore event for old or retired slot {slot}");
@@ -290,6 +300,12 @@ impl<A: All2All> Votor<A> {
     }
 
     async fn handle_timeout_event(&mut self, event: VotorTimeout) {
+        #[cfg(feature = "verif-hooks")]
+        crate::verif::record(crate::verif::VerifEvent::VotorTimeout {
+            node: self.validator_index,
+            slot: event.slot(),
+            crashed_leader: matches!(event, VotorTimeout::TimeoutCrashedLeader(_)),
+        });
         let slot = event.slot();
         if slot <= self.highest_final_cert_slot || self.is_retired(slot) {
             trace!("ignoring timeout for old or retired slot {slot}");
